@@ -3,13 +3,20 @@
    program of the same template.  check_corr: model = implementation (and the source term denotes what the default
    program plays).  check_spec: the implementation's VM history is the default program's staircase. *)
 From Coq Require Import ZArith QArith List Bool.
-Require Import QV.common.Util QV.C17.Model QV.C17.Spec QV.C17.Scope.
+Require Import QV.common.Util QV.C17.Model QV.C17.Spec QV.C17.Scope QV.C17.SExpr.
 Import ListNotations.
 Open Scope Z_scope.
 
 Inductive iobs :=
 | IHist (h : hist_t) (total : Q)
 | IErr (e : err).
+
+(* SimpleExpression arithmetic: what the python operators returned for an expression tree (a number, or base / offsets in
+   dict order / value(scope)), or that they raised *)
+Inductive sobs :=
+| SONum (q : Q)
+| SOExp (base : Q) (offsets : list (nat * Q)) (value : Q)
+| SOErr.
 
 Inductive case :=
 | CRun (channels : nat) (fuel : positive) (s : src) (exact : bool) (impl : iobs) (dflt : steps_t) (dflt_total : Q)
@@ -20,6 +27,7 @@ Inductive case :=
 (* a hold whose duration depends on the loop index, built by driving LinSpaceBuilder directly (outside the quantifier of
    the property): the translator refuses it; dflt = the default program of the corresponding template *)
 | CDur (duration_factors : list Q) (impl : iobs) (dflt : steps_t) (dflt_total : Q)
+| CSExpr (e : sx) (env : list (nat * Z)) (impl : sobs)
 | CCrash.
 
 Definition err_eqb (a b : err) : bool :=
@@ -63,6 +71,14 @@ Definition check_corr (c : case) : bool :=
       | Ok _, IHist _ _ => true
       | _, _ => false
       end
+  | CSExpr e env impl =>
+      match sx_run e, impl with
+      | Some (SNum q), SONum q' => Qeq_bool q q'
+      | Some (SExp (b, o)), SOExp b' o' v =>
+          Qeq_bool b b' && list_eqb (pair_eqb Nat.eqb Qeq_bool) o o' && Qeq_bool (se_value (env_of_alist env) (SExp (b, o))) v
+      | None, SOErr => true
+      | _, _ => false
+      end
   | CCrash => false
   end.
 
@@ -97,6 +113,13 @@ Definition check_spec (c : case) : bool :=
       | IErr ENotImpl => true
       | IErr _ => false
       | IHist h tot => hist_matches 0 h dflt && Qeq_bool tot dtot
+      end
+  | CSExpr e env impl =>
+      (* the value of what the operators return is the value of the tree; they may refuse only trees that are not affine *)
+      match impl with
+      | SONum q => Qeq_bool q (sx_den (env_of_alist env) e)
+      | SOExp _ _ v => Qeq_bool v (sx_den (env_of_alist env) e)
+      | SOErr => negb (sx_affine e)
       end
   | CCrash => false
   end.
